@@ -35,6 +35,10 @@ NEEDS = {
     'C17-agent': ('C17', 'right extrapolation node uses the first instead of the last node spacing: needs unevenly spaced nodes and a query beyond the right end', ['C17']),
     'C18-agent': ('C18', 'reference orbital phase added after the reduction to [0, 2pi): result >= 2pi whenever reference phase + reduced elapsed phase wraps', ['C18', 'C20']),
     'C19-agent': ('C19', 'flatten_dict recursion drops the custom separator: needs a non-default separator and at least three nesting levels', ['C19']),
+    'C05-agent2': ('C05', 'moist kappa*T*omega/p term regrouped so that the humidity part of the reference-temperature contribution is paired with the non-divergent part of omega only: needs the moist equations with non-zero humidity AND a divergent flow; all balanced families (omega = 0) and q = 0 are unaffected', ['C05', 'C04']),
+    'C07-agent2': ('C07', 'per-shard frequency offset of the sharded longitude derivative computed from the y instead of the x mesh size: needs a mesh with x > 1 and x != y AND a grid whose resolved zonal wavenumbers extend beyond the first x-shard', ['C07']),
+    'C08-agent2': ('C08', 'stop_gradient on the scanned inputs inside the checkpointed inner scan: primal values and gradients w.r.t. the initial carry unchanged; gradients w.r.t. scanned inputs xs are zero whenever len(nested_lengths) >= 2 (still finite and self-adjoint)', ['C08', 'C14']),
+    'C12-agent2': ('C12', 'implicit-solve matrix built with unit-sphere Laplacian eigenvalues -l(l+1) instead of the grid eigenvalues -l(l+1)/radius^2: invisible whenever the non-dimensional radius is 1 (default and atmospheric scales, any scale changing only time/mass/temperature) and in every single tendency; needs a length scale != RADIUS and a semi-implicit solve or step', ['C12', 'C03']),
     'C20-agent': ('C20', 'Held-Suarez kt computed as kv()/kf: identical unless kf == 0 (no friction), where it becomes NaN', ['C20']),
 }
 
